@@ -1185,7 +1185,7 @@ def build_cases(ctx: Ctx):
 # ====================================================================== entry points
 def run(ctx: Ctx):
     from vf.prove import prove
-    prove(ctx, ["specs.helpers", "specs.paths"], "C11")  # deductive part (specs/helpers.py)
+    prove(ctx, ["specs.helpers", "specs.paths"], "C11", lemma_groups=["bfslev"])  # deductive part (specs/paths.py, specs/helpers.py)
     from vf.pool import pmap
     use_repo()
     cases = build_cases(ctx)
